@@ -89,6 +89,13 @@ func main() {
 						c.Failf("translation", "RingContains(%v, %v) = %v after translating both by (2^20, -2^20+3), %v before", v, pf, got, want)
 						return
 					}
+					// the same question scaled by a power of two (exact): the answer cannot change
+					for _, k := range []float64{1024, 1.0 / 64} {
+						if got := planar.RingContains(refgeom.Scale(v, k).(orb.Ring), orb.Point{pf[0] * k, pf[1] * k}); got != want {
+							c.Failf("scaling", "RingContains(%v, %v) = %v after scaling both by %v, %v before", v, pf, got, k, want)
+							return
+						}
+					}
 					// the same ring with spare capacity behind it (a prefix of a longer slice)
 					if got := planar.RingContains(orb.Ring(refgeom.Spare(v)), pf); got != want {
 						c.Failf("layout-dependent", "RingContains(%v, %v) = %v when the ring has spare capacity, %v otherwise", v, pf, got, want)
